@@ -41,6 +41,13 @@ func c04Scenarios(tier string) []CScenario {
 		{Name: "multisign-vs-batch", Threads: [][]CReq{{signsN(0, 1)}, {attsN(k10, 0, 1)}}},
 		{Name: "batch-vs-two-singles", Threads: [][]CReq{{attsN(k01, 1, 2)}, {att1(0, 0, 1)}, {att1(1, 0, 1)}}},
 	}
+	// Malformed batches are refused as a whole and must not disturb others.
+	nokey := attsN(k01, 0, 1)
+	nokey.Kind = "atts-nokey"
+	sc = append(sc,
+		CScenario{Name: "dup-batch-then-single-vs-batch", Threads: [][]CReq{{attsN([]int{0, 0}, 0, 1), att1(0, 0, 1)}, {attsN(k10, 1, 2)}}},
+		CScenario{Name: "nokey-batch-then-single-vs-single", Threads: [][]CReq{{nokey, att1(0, 0, 1)}, {att1(0, 1, 2)}}},
+	)
 	// Batches with three keys in every cyclic order, under both bytewise key orders (an implementation may order lock
 	// acquisition by key bytes).
 	for _, desc := range []bool{false, true} {
